@@ -1616,11 +1616,7 @@ class Chord:
         replacements = sorted(re.findall(r'\((.*?)\)', extension))
         additions = sorted(re.findall(r'\[(.*?)\]', extension))
         removals = sorted(re.findall(r'\{(.*?)\}', extension))
-        ext = extension
-        for r in replacements + additions + removals:
-            ext = ext.replace(r, '')
-        ext = ext.replace('()', '').replace('[]', '').replace('{}', '')
-        extension = ext
+        extension = re.sub(r'\(.*?\)|\[.*?\]|\{.*?\}', '', extension)
         return extension, replacements, additions, removals
 
 
